@@ -133,3 +133,50 @@ func Harness_C31_failover_and_drop_accounting() {
 	}
 	v.Reach("C31.failover.end")
 }
+
+// The sender's pop with write failures: 3 packets are accepted, then up to 5 pops run against a writer
+// model that, like net.Buffers.WriteTo on a broken connection, writes an arbitrary number k of the
+// offered packets completely, and when k is not all of them fails inside packet k (which is
+// deliberately not resent: "len(bufs) - 1"). Whatever the sequence of failures - several in one batch
+// included - every offer starts exactly at the packet after the last one written or broken: no packet
+// is offered twice, none is skipped, order is kept, and each packet ends up either written whole once
+// or broken by a failure.
+func Harness_C31_pop_retry() {
+	v.NativeQuiesce = 1500 * time.Millisecond
+	b := c31NewBuffer()
+	const n = 3
+	for k := 0; k < n; k++ {
+		_, ok := b.push([]byte{byte(k)})
+		v.Assert("C31.pop.push_accepted", ok)
+	}
+	next := 0 // id of the packet the next offer must start with
+	whole, broken := 0, 0
+	fails := 0
+	errBroken := errors.New("c31: connection broke")
+	for pops := 0; pops < 5 && next < n; pops++ {
+		_ = b.pop(func(pkts [][]byte) (int, error) {
+			v.Assert("C31.pop.offer_starts_after_last_written_or_broken_packet", len(pkts) > 0 && int(pkts[0][0]) == next)
+			for i := range pkts {
+				v.Assert("C31.pop.offer_is_in_order_without_gaps", int(pkts[i][0]) == next+i)
+			}
+			k := v.Choice(len(pkts) + 1)
+			whole += k
+			next += k
+			if k == len(pkts) {
+				return -1, nil // all written: WriteTo leaves no buffers
+			}
+			broken++
+			next++
+			fails++
+			return len(pkts) - k - 1, errBroken
+		})
+	}
+	if next >= n {
+		v.Assert("C31.pop.every_packet_written_whole_once_or_broken", whole+broken == n && next == n)
+		v.Reach("C31.pop.all_handled")
+	}
+	if fails >= 2 {
+		v.Reach("C31.pop.two_failures")
+	}
+	v.Quiesce()
+}
